@@ -154,7 +154,10 @@ func gvkLessThan(gvk1, gvk2 resid.Gvk, typeOrders map[string]int) bool {
 	if index1 != index2 {
 		return index1 < index2
 	}
-	if (gvk1.Kind == types.NamespaceKind && gvk2.Kind == types.NamespaceKind) && (gvk1.Group == "" || gvk2.Group == "") {
+	// The core Namespace is ordered before Namespace kinds of other API groups only when
+	// "Namespace" is on one of the priority lists (index != 0), i.e. when no other kind can
+	// share its rank; among the unlisted kinds this reversal would make the order cyclic.
+	if index1 != 0 && (gvk1.Kind == types.NamespaceKind && gvk2.Kind == types.NamespaceKind) && (gvk1.Group == "" || gvk2.Group == "") {
 		return legacyGVKSortString(gvk1) > legacyGVKSortString(gvk2)
 	}
 	return legacyGVKSortString(gvk1) < legacyGVKSortString(gvk2)
